@@ -25,6 +25,8 @@ def run(chk, tier):
         efn, epaths, erows = E.eval_dyn_table(chk, F, 'R02.8.table', cfg)
         E.counting_discipline(chk, F, 'R02.8', cfg, efn, erows)
         position_is_rmw(chk, F, 'R02.3', cfg)
+        # R02.9 an ordered chain whose last response is left unquantified gets one more call ADDED to the counts already given (r1 x n1 .. then r_last x 1)
+        B.ordered_implicit_once(chk, F, 'R02.9', cfg)
         segment_lookup(chk, F, 'R02.4', cfg)
         E.eval_table(chk, F, 'R02.5', cfg)
         # single-use half (= C12's R12.3): composite kinds turn an exhausted leaf into `no value`, never into a value
